@@ -256,6 +256,16 @@ let handle (toks : string list) : string =
       let rec int_of_nat = function O -> 0 | S n -> 1 + int_of_nat n in
       let rs = detect e in
       if rs = [] then "regs=-" else "regs=" ^ String.concat ";" (List.map (fun (o, l) -> Printf.sprintf "%d:%d" (int_of_nat o) (int_of_nat l)) rs)
+  | ["V"; mode; mn; mx; srcs; dsts] ->
+      (* verify-only: entries kind:path:size:content *)
+      let parse t = if t = "-" then [] else List.map (fun it -> match String.split_on_char ':' it with
+        | [k; p; sz; c] -> { v_path = path_of_str p; v_is_dir = (k = "d"); v_size = nint sz; v_content = nint c }
+        | _ -> failwith "ventry") (String.split_on_char ',' t) in
+      let r = verify (if mode = "fast" then CkNone else CkContent) (optn mn) (optn mx) (parse srcs) (parse dsts) in
+      let rec int_of_nat = function O -> 0 | S n -> 1 + int_of_nat n in
+      let f l = if l = [] then "-" else String.concat "," (List.sort compare (List.map str_of_path l)) in
+      Printf.sprintf "exit=%d matched=%d mismatched=%s only_src=%s only_dst=%s errors=%s" (int_of_z (verify_exit r)) (int_of_nat r.vr_matched)
+        (f r.vr_mismatched) (f r.vr_only_src) (f r.vr_only_dst) (f r.vr_errors)
   | _ -> "BADCASE"
 
 let () =
